@@ -172,6 +172,7 @@ def run_controller(ch, params, monitors, fail_point=False):
         FALSY["on"] = bool(params.get("falsy"))
         job, spec = build_job(ch, n, multi, gpu_possible, fixed, with_ext=not params.get("family"), ext_sinks=bool(params.get("family")), ext_all=bool(params.get("ext_all")))
         sim = sim_cluster.SimCluster(job, hosts, ch, K, monitors, ch.untraced)
+        sim.overtake = bool(params.get("overtake"))
         if fail_point:
             sim.fail_at = ch.pick(6, "fail_at")
         pre = s_graph.precompute(job)
@@ -255,6 +256,9 @@ class Ctrl(Harness):
                         out.append({"n": n, "multi": list(multi), "hosts": hosts, "K": K})
             for n in (1, 2):
                 out.append({"n": n, "multi": [0] * n, "hosts": "2x1", "K": 3, "falsy": True})  # a requested output whose value is falsy
+            # a retried notice is overtaken by the next one of the same executor (two-output task, one or two tasks)
+            out.append({"n": 1, "multi": [1], "hosts": "1x1", "K": 5, "overtake": True})
+            out.append({"n": 2, "multi": [1, 0], "hosts": "1x2", "K": 4, "overtake": True})
             for hosts, multi, K in [("2x1", [0, 0, 0], 4), ("1x2", [0, 0, 0], 3), ("2x2", [0, 0, 0], 3), ("2x1g", [0, 0, 0], 2), ("1x1g", [0, 0, 0], 1), ("1x1", [0, 0, 0], 2),
                                     ("2x1", [1, 0, 0], 3)]:
                 for f01 in range(len(pair_options(2 if multi[0] else 1))):
